@@ -1,5 +1,6 @@
 import Gtree.Lemmas.SourceRefines
 import Gtree.Lemmas.HeapBuilder
+import Gtree.Lemmas.HeapZipper
 import Gtree.Lemmas.MalformedIff
 import Gtree.Lemmas.Names
 import Gtree.Lemmas.Build
@@ -506,4 +507,27 @@ theorem C02_dfs_is_the_source (h : SrcH.Heap) (stk : List Go.Ptr) (c : Go.Ptr) (
        | none => (h, [], false)
        | some (p, rest) => SrcH.attach h c p rest) :=
   SrcH.dfs_spec h stk c hne
+end Gtree
+
+namespace Gtree
+/-- Tie to the source (heap mode, regenerated on every run): over a whole root block the translated builder step rejects
+    exactly where the model's zipper does.  With heap and stack representing the zipper `z` (`SrcH.ZR`, all pointers
+    different) and a fresh node for the row, `stack.dfs` returns false if and only if the model's `dfs` is undefined —
+    the row is more than one level deeper than the deepest open node, or at root level — and otherwise heap and stack
+    represent the model's next zipper: no row is attached in the wrong place and none is dropped. -/
+theorem C02_builder_step_refines_the_model (h : SrcH.Heap) (hz : List SrcH.HFrame) (z : Zipper) (c : Go.Ptr) (k : Nat)
+    (x : Bytes) (hr : SrcH.ZR h none hz z) (ht : SrcH.TopOk hz z) (hnd : (SrcH.zPtrs h hz z).Nodup)
+    (hc0 : c ≠ 0) (hcf : c ∉ SrcH.zPtrs h hz z) (hcn : (h c).name = x) (hcl : (h c).hierarchy = (k : Int))
+    (hcc : (h c).children = []) :
+    (match Gtree.dfs k x z with
+     | none => (SrcH.stack.dfs h (hz.map (·.p)).reverse c).2.2 = false
+     | some z' => ∃ h' hz', SrcH.stack.dfs h (hz.map (·.p)).reverse c = (h', (hz'.map (·.p)).reverse, true) ∧
+         SrcH.ZR h' none hz' z' ∧ SrcH.TopOk hz' z' ∧ (SrcH.zPtrs h' hz' z').Nodup) := by
+  have := SrcH.dfs_refines h hz z c k x hr ht hnd hc0 hcf hcn hcl hcc
+  cases hm : Gtree.dfs k x z with
+  | none => simp only [hm] at this ⊢; exact this
+  | some z' =>
+    simp only [hm] at this ⊢
+    obtain ⟨h', hz', h1, h2, h3, h4, _⟩ := this
+    exact ⟨h', hz', h1, h2, h3, h4⟩
 end Gtree
